@@ -559,6 +559,7 @@ def run(ctx) -> None:
            construct="dw['state'] = {currentCondition, currentIteration} from latest")
 
     check_placeholder_match(ctx, g)
+    check_placeholders_accumulate(ctx, g)
     check_iteration_patterns(ctx, [g, ctx.repo.module("python/experiment/model/frontends/flowir.py")])
     check_frozen_placeholders(ctx, ctx.repo.module(CONTROL))
 
@@ -651,6 +652,29 @@ def check_iteration_patterns(ctx, mods) -> None:
     ctx.floor(RID, n_rec, 8, "recognisers of '<iteration>#<name>' instance names ('#' in .. / split('#')) in graph.py and flowir.py")
     ctx.ob(RID, mods[0].tree, True, "instance names are recognised by '#' membership / split in %d places; every regular expression for them is checked" % n_rec,
            construct="recognisers of looped instance names")
+
+
+def check_placeholders_accumulate(ctx, g) -> None:
+    """WorkflowGraph._placeholders accumulates: the discovery deliberately leaves some placeholders out of what it returns (a placeholder
+    the controller froze on a restart is skipped), so the table is UPDATED with what was discovered, never replaced by it.  Outside
+    __init__ the attribute is not rebound."""
+    rule = "C05.R7-instance-set-owned-by-graph"
+    n = 0
+    for q, f in sorted(g.functions.items()):
+        if not q.startswith("WorkflowGraph."):
+            continue
+        for a in source.walk_own(f):
+            if isinstance(a, (ast.Assign, ast.AugAssign)):
+                for t in (a.targets if isinstance(a, ast.Assign) else [a.target]):
+                    if isinstance(t, ast.Attribute) and t.attr == "_placeholders" and isinstance(t.value, ast.Name) and t.value.id == "self":
+                        n += 1
+                        ok = q.endswith(".__init__")
+                        ctx.ob(rule, a, ok, "the placeholder table is created in __init__" if ok else
+                               "%s REPLACES self._placeholders (%s) instead of updating it: the placeholders that the discovery leaves out on purpose "
+                               "(frozen on a restart, or of a document that is not visited in this call) vanish from the table - references to "
+                               "them from outside the loop no longer resolve to the latest instance" % (q, short(a, 60)),
+                               construct="self._placeholders is only updated outside __init__", trivial=ok)
+    ctx.floor(rule, n, 1, "bindings of WorkflowGraph._placeholders")
 
 
 def check_frozen_placeholders(ctx, ctl) -> None:
